@@ -21,11 +21,12 @@ const (
 	kInv = iota
 	kTrans
 	kPass
+	kSub // a nested graph START→(invokable lambda In→Out)→END added as one node
 )
 
 type Node struct {
 	Key    string `json:"key"`
-	Kind   int    `json:"kind"` // 0 invokable lambda, 1 transformable lambda, 2 passthrough
+	Kind   int    `json:"kind"` // 0 invokable lambda, 1 transformable lambda, 2 passthrough, 3 nested graph
 	In     int    `json:"in"`
 	Out    int    `json:"out"`
 	Echo   bool   `json:"echo,omitempty"`
@@ -133,6 +134,13 @@ func (n *Node) outPort() int {
 	return n.Out
 }
 
+// emitsNil: the node emits a nil interface value in every second variant. Never a
+// nested graph: the nil value would be the final output of that graph, which the
+// engine reads as "no result yet" (outside the property).
+func (n *Node) emitsNil() bool {
+	return n.Nil && (n.Kind == kInv || n.Kind == kTrans) && isIface(n.Out)
+}
+
 // transparent: a pass-through node without keys hands on what it receives.
 func (n *Node) transparent() bool { return n.Kind == kPass && n.InKey == "" && n.OutKey == "" }
 
@@ -172,7 +180,7 @@ func (s *Spec) String() string {
 				b.WriteString("(" + strings.Join(ks, ",") + ")")
 			}
 		default:
-			fmt.Fprintf(&b, "%s:%s(%s→%s", n.Key, [...]string{"inv", "trans"}[n.Kind], typeNames[n.In], typeNames[n.Out])
+			fmt.Fprintf(&b, "%s:%s(%s→%s", n.Key, [...]string{"inv", "trans", "", "sub"}[n.Kind], typeNames[n.In], typeNames[n.Out])
 			if n.Echo {
 				b.WriteString(",echo")
 			}
@@ -342,7 +350,7 @@ func (g *gen) newNode(q nodeReq) string {
 		// what Parallel.AddPassthrough creates), one with an input key unwraps a map element
 		if q.forceOutKey != "" {
 			n.OutKey = q.forceOutKey
-		} else if r.Prob(0.15) {
+		} else if r.Prob(0.22) {
 			n.OutKey = "k"
 		}
 		// (never both keys: nothing tells eino the inner type of such a node and Compile
@@ -356,7 +364,7 @@ func (g *gen) newNode(q nodeReq) string {
 			if n.InKey != "" {
 				n.Pre = tMap
 			}
-			if r.Prob(0.1) {
+			if r.Prob(0.15) {
 				n.Pre = pickType(r)
 			}
 			n.PreStream = r.Prob(0.3)
@@ -367,7 +375,7 @@ func (g *gen) newNode(q nodeReq) string {
 			if n.OutKey != "" {
 				n.Post = tMap
 			}
-			if r.Prob(0.1) {
+			if r.Prob(0.15) {
 				n.Post = pickType(r)
 			}
 			n.PostStream = r.Prob(0.3)
@@ -379,6 +387,8 @@ func (g *gen) newNode(q nodeReq) string {
 	n.Key = g.key("n")
 	if r.Prob(0.3) {
 		n.Kind = kTrans
+	} else if r.Prob(0.15) {
+		n.Kind = kSub
 	}
 	n.Echo = r.Prob(0.5)
 	// input side
@@ -412,7 +422,7 @@ func (g *gen) newNode(q nodeReq) string {
 			n.Out = pickType(r)
 		}
 	}
-	if isIface(n.Out) && r.Prob(0.22) {
+	if isIface(n.Out) && n.Kind != kSub && r.Prob(0.22) {
 		n.Nil = true
 	}
 	if g.s.State && r.Prob(0.35) {
@@ -528,9 +538,9 @@ func genSpecOnce(r *mon.Rand) *Spec {
 	g := &gen{r: r, s: &Spec{GO: -1}, pBad: 0.05}
 	s := g.s
 	switch x := r.Float(); {
-	case x < 0.46:
+	case x < 0.40:
 		s.Front = feGraph
-	case x < 0.72:
+	case x < 0.70:
 		s.Front = feChain
 	default:
 		s.Front = feWorkflow
@@ -1096,7 +1106,7 @@ func (s *Spec) features() []string {
 				f["handler-on-passthrough"] = true
 			}
 		}
-		if n.Nil {
+		if n.emitsNil() {
 			f["nil-emitter"] = true
 		}
 		if (n.Pre >= 0 && n.PreConv > 0) || (n.Post >= 0 && n.PostConv > 0) {
@@ -1107,6 +1117,9 @@ func (s *Spec) features() []string {
 		}
 		if n.Kind == kTrans {
 			f["transform-lambda"] = true
+		}
+		if n.Kind == kSub {
+			f["nested-graph"] = true
 		}
 		if n.InKey != "" {
 			f["input-key"] = true
